@@ -1,5 +1,8 @@
 #!/usr/bin/env python3
 """pamcheck — static rules for pam/pam_whawty.c (property C20, and the C side of C13.4 / C05.5).
+usage: pamcheck.py C20 quick|thorough          the C20 check (./run.sh C20 ...)
+       pamcheck.py C13 quick [--obligations]   the request-shape family C20.3 reported as C13.4 (run by wacheck's C13 check, rules/c05.go c134)
+
 
 Decides from the source only: runs clang 14 as a *parser* (-fsyntax-only must succeed) and as a CFG builder
 (--analyze -analyzer-checker=debug.DumpCFG) with the stub PAM headers in pam/stubs, then enumerates every acyclic
@@ -7,7 +10,7 @@ path of the source-level CFG of each function, tracking the last assignment of e
 branch facts, and evaluates guarded-return / order / shape rules. No compiled code is run.
 usage: pamcheck.py C20 quick|thorough
 """
-import hashlib, json, os, re, subprocess, sys, time
+import hashlib, itertools, json, os, re, subprocess, sys, time
 
 V = os.path.dirname(os.path.dirname(os.path.abspath(__file__)))
 REPO = os.environ.get("VERIF_REPO", "/repo")
@@ -133,6 +136,8 @@ class Path:
         self.assign_at = [] # parallel to assigns: number of events recorded when the assignment happened
         self.lastset = {}   # local variable -> (value, number of events recorded then) of its last assignment; unlike env it
                             # survives the variable's address being handed to a call (the rules check what happened since)
+        self.stores = []    # byte stores into memory in program order (memcpy/snprintf/strncpy/memset calls, byte assignments):
+                            # dicts {kind, dst, n, ..., at (events recorded before), site, call}; see record_copy()
         self.hdrvisits = 0  # how often the innermost loop header decided by constants has been entered (unrolling)
         self.ret = None     # returned expression (substituted), '' for plain return
         self.rawret = None
@@ -143,6 +148,7 @@ class Path:
         q.env, q.facts, q.events = dict(self.env), list(self.facts), list(self.events)
         q.assigns, q.arrays, q.callvals = list(self.assigns), dict(self.arrays), dict(self.callvals)
         q.decls, q.assign_at, q.lastset = dict(self.decls), list(self.assign_at), dict(self.lastset)
+        q.stores = list(self.stores)
         q.ret, q.rawret = self.ret, self.rawret
         q.hdrvisits = self.hdrvisits
         return q
@@ -247,6 +253,8 @@ def fold(e):
                 return '(%d) ? ' % int((ENUMS[m.group(1)] == ENUMS[m.group(3)]) == (m.group(2) == '=='))
             return m.group(0)
         e = re.sub(r'\(([A-Za-z_][A-Za-z0-9_]*) (==|!=) ([A-Za-z_][A-Za-z0-9_]*)\) \? ', ecmp, e)
+    if 'strlen("' in e:     # the length of a string literal (an empty request part handed to an inlined encoder helper)
+        e = re.sub(r'(?<![A-Za-z0-9_])strlen\("([^"\\]*)"\)', lambda m: str(len(m.group(1))), e)
     for _ in range(8):
         m = re.search(r'(?<![A-Za-z0-9_)\]])(?:\(([01])\)|([01])) \? ', e)
         if not m:
@@ -314,8 +322,135 @@ def escape_arrays(P, cargs):
         if a in P.arrays:
             P.arrays[a] = [None] * len(P.arrays[a])
 
+# ---- byte stores: what a path writes into memory (the request assembled in a buffer before it is written to the socket)
+
+SIZES = {"char": 1, "signed char": 1, "unsigned char": 1, "uint8_t": 1, "u_int8_t": 1, "__uint8_t": 1,
+         "u_int16_t": 2, "uint16_t": 2, "unsigned short": 2, "unsigned short int": 2, "__uint16_t": 2, "short": 2, "int16_t": 2,
+         "int": 4, "unsigned int": 4, "unsigned": 4, "u_int32_t": 4, "uint32_t": 4, "int32_t": 4,
+         "long": 8, "unsigned long": 8, "size_t": 8, "ssize_t": 8, "long int": 8, "unsigned long int": 8}
+CHARLIKE = {"char", "signed char", "unsigned char", "uint8_t", "u_int8_t", "__uint8_t", "void"}
+
+def type_size(ty):
+    """sizeof a (non-pointer) type written as in a declaration: `u_int16_t`, `unsigned char [2]`, a record type; None if unknown."""
+    ty = re.sub(r'\b(?:const|volatile)\b ?', '', ty or '').strip()
+    if not ty or ty.endswith('*'):
+        return None
+    m = re.fullmatch(r'(.+?) ?\[(\d+)\]', ty)
+    if m:
+        s = type_size(m.group(1))
+        return s * int(m.group(2)) if s else None
+    if ty in SIZES:
+        return SIZES[ty]
+    return (LAYOUTS.get(re.sub(r'^(?:struct|union) ', '', ty)) or {}).get("size")
+
+def szfold(P, text):
+    """sizeof(<local variable of this function>) / sizeof(<scalar type>) -> its value."""
+    def rep(m):
+        x = m.group(1).strip()
+        s = type_size(P.decls[x]) if x in P.decls else (type_size(x) if not re.fullmatch(r'[A-Za-z_][A-Za-z0-9_]*', x) or x in SIZES else None)
+        return str(s) if s else m.group(0)
+    return re.sub(r'sizeof ?\(([^()]*)\)', rep, text)
+
+def elem_type(P, fn, expr):
+    """type of the elements a pointer expression without casts points to: that of the one pointer / array variable in it."""
+    tys = []
+    for x in set(re.findall(r'(?<![A-Za-z0-9_>.$])[A-Za-z_][A-Za-z0-9_]*(?![A-Za-z0-9_(])', expr)):
+        ty = P.decls.get(x) or fn.ptypes.get(x)
+        if ty and (ty.endswith('*') or ty.endswith(']')):
+            tys.append(re.sub(r'\b(?:const|volatile)\b ?', '', re.sub(r' ?(\*|\[\d*\])$', '', ty)).strip())
+    return tys[0] if len(tys) == 1 else None
+
+def record_assign(P, fn, site, lv, val, op=None):
+    """a store through a pointer or into an array cell:  p[i] = v,  *p = v,  *(u_int16_t *)p = htons(v)."""
+    at = len(P.events)
+    def S(**kw):
+        kw.update(at=at, site=site, call="%s %s= %s" % (lv, op or '', val))
+        P.stores.append(kw)
+    lv = lv.strip()
+    m = re.fullmatch(r'\*\(?([A-Za-z_][A-Za-z0-9_]*)\+\+\)?', lv)
+    if m and not op and m.group(1) in P.env and elem_type(P, fn, m.group(1)) in CHARLIKE - {"void"}:
+        v = m.group(1)                      # *p++ = x with p a local byte pointer: store at p, then p = p + 1
+        S(kind='byte', dst=szfold(P, P.env[v]), n='1', val=szfold(P, val))
+        P.env[v] = '(' + P.env[v] + ' + 1)'
+        P.lastset[v] = (P.env[v], len(P.events))
+        return
+    m = re.fullmatch(r'(.+)\[([^\[\]]+)\]', lv)
+    if op or re.search(r'\+\+|--', lv):
+        return S(kind='opaque', dst=None, n=None, why="a compound / post-incrementing store through a pointer is not followed")
+    if m:
+        base, idx = norm(m.group(1)), m.group(2)
+    elif lv.startswith('*'):
+        base, idx = norm(lv[1:]), '0'
+    else:
+        return S(kind='opaque', dst=None, n=None, why="store target not understood")
+    w = None
+    cast = re.match(r'^\(((?:const |unsigned |signed )*[A-Za-z_][A-Za-z0-9_ ]*?) ?\*\)\s*(.+)$', base)
+    if cast:
+        w, base = type_size(cast.group(1)), norm(cast.group(2))
+    else:
+        et = elem_type(P, fn, base)
+        w = 1 if et in CHARLIKE and et != "void" else (type_size(et) if et else None)
+    isarr = re.fullmatch(r'[A-Za-z_][A-Za-z0-9_]*', base) and P.decls.get(base, '').endswith(']')
+    dst = szfold(P, '(%s) + (%s)' % (base if isarr else P.subst(base), P.subst(idx)))
+    val = szfold(P, val)
+    mm = CALL.match(norm(val))
+    if w == 1:
+        S(kind='byte', dst=dst, n='1', val=val)
+    elif w == 2 and idx == '0' and mm and mm.group(1) == 'htons' and len(split_args(mm.group(2))) == 1:
+        S(kind='be16', dst=dst, n='2', x=norm(split_args(mm.group(2))[0]))
+    else:
+        S(kind='opaque', dst=dst, n=str(w) if w else None, why="a store of %s bytes whose byte order / width is not followed" % (w or "an unknown number of"))
+
+def record_copy(P, site, name, cargs):
+    """memcpy / memmove / snprintf("%s") / strncpy / memset: which bytes land where (libc semantics, trusted base).
+    snprintf(d, n, "%s", s) stores min(strlen(s), n-1) bytes of s and a NUL, and RETURNS strlen(s);
+    strncpy(d, s, n) stores min(strlen(s), n) bytes of s and pads with NULs up to n."""
+    at = len(P.events)
+    call = "%s(%s)" % (name, ", ".join(cargs))
+    def S(**kw):
+        kw.update(at=at, site=site, call=call)
+        P.stores.append(kw)
+    a = [szfold(P, x) for x in cargs]
+    if name in ("memcpy", "memmove") and len(a) == 3:
+        src = strip_casts(a[1])
+        m = re.fullmatch(r'&\(?([A-Za-z_][A-Za-z0-9_]*)\)?', src)
+        fld = None
+        if m and P.decls.get(m.group(1)) in U16:
+            fld = ('int16', m.group(1))
+        elif re.fullmatch(r'[A-Za-z_][A-Za-z0-9_]*', src) and re.fullmatch(r'(.+?) \[2\]', P.decls.get(src, '')) and P.decls[src][:-4] in U8:
+            fld = ('bytes', src)
+        if fld:
+            x = encoded_value(P, fld, at)
+            if x is not None and const_int(a[2]) == 2:
+                return S(kind='be16', dst=a[0], n='2', x=szfold(P, x))
+            return S(kind='opaque', dst=a[0], n=a[2], why="copies %s bytes of the object %s, which does not hold a 16-bit big-endian value at that point" % (a[2], fld[1]))
+        if m:
+            return S(kind='opaque', dst=a[0], n=a[2], why="copies the object representation of %s" % m.group(1))
+        return S(kind='bytes', dst=a[0], n=a[2], src=src)
+    if name == "snprintf" and len(a) >= 3:
+        if len(a) == 4 and norm(a[2]) == '"%s"':
+            src = strip_casts(a[3])
+            k = '__min(strlen(%s), (%s) - 1)' % (src, a[1])
+            S(kind='bytes', dst=a[0], n=k, src=src, via='snprintf', size=a[1])
+            return S(kind='fill', dst='(%s) + %s' % (a[0], k), n='1', val='0', via='snprintf', size=a[1])
+        return S(kind='opaque', dst=a[0], n=a[1], why="formatted output other than \"%s\" is not followed")
+    if name == "strncpy" and len(a) == 3:
+        src = strip_casts(a[1])
+        k = '__min(strlen(%s), %s)' % (src, a[2])
+        S(kind='bytes', dst=a[0], n=k, src=src, via='strncpy')
+        return S(kind='fill', dst='(%s) + %s' % (a[0], k), n='(%s) - %s' % (a[2], k), val='0', via='strncpy')
+    if name == "memset" and len(a) == 3:
+        return S(kind='fill', dst=a[0], n=a[2], val=a[1])
+    if name == "verif_pam_overwrite_n" and len(a) == 2:      # _pam_overwrite_n(x, n): n zero bytes (stub header)
+        return S(kind='fill', dst=a[0], n=a[1], val='0')
+    if name in ("strcpy", "strcat", "sprintf", "vsprintf", "strncat", "gets", "vsnprintf", "read", "recv", "_whawty_read_data") and a:
+        return S(kind='opaque', dst=a[1] if name in ("read", "recv", "_whawty_read_data") and len(a) > 1 else a[0], n=None, why="%s() writes an amount of data that is not followed" % name)
+
+UNPINNED = set()    # pinned names that, in this version of the file, are not the function the pin stands for (set by run_rules):
+                    # a `_whawty_send_request_part` that never reaches _whawty_write_data is an encoder helper like any other
+
 def inlinable(name):
-    return name in FUNCS and name not in PINNED and FUNCS[name].entry is not None
+    return name in FUNCS and (name not in PINNED or name in UNPINNED) and FUNCS[name].entry is not None
 
 def rename_params(fn, args, text):
     for prm, arg in sorted(zip(fn.params, args), key=lambda x: -len(x[0])):
@@ -356,7 +491,7 @@ def enum_paths(fn, limit=20000):
         out = []
         # an expression function: no calls, same value on every path -> plain substitution, no fork
         vals = {rename_params(h, args, q.ret) for q in qs}
-        if len(vals) == 1 and all(not q.events and not q.assigns for q in qs):
+        if len(vals) == 1 and all(not q.events and not q.assigns and not q.stores for q in qs):
             P2 = P.copy()
             P2.callvals[full] = '(' + norm(vals.pop()) + ')'
             return [P2]
@@ -374,6 +509,18 @@ def enum_paths(fn, limit=20000):
             for k, (lv, rv) in enumerate(q.assigns):
                 P2.assigns.append((rename_params(h, args, lv), rename_params(h, args, rv)))
                 P2.assign_at.append(len(P.events) + (q.assign_at[k] if k < len(q.assign_at) else len(q.events)))
+            # byte stores of the helper, in the caller's terms; the helper's own locals get a name that cannot collide
+            locs = [v for v in q.decls if v not in h.params]
+            def up(x):
+                if not isinstance(x, str):
+                    return x
+                for v in locs:
+                    x = re.sub(r'(?<![A-Za-z0-9_$>.])' + re.escape(v) + r'(?![A-Za-z0-9_$])', lambda _: v + '$' + name, x)
+                return rename_params(h, args, x)
+            for st in q.stores:
+                st2 = {k: (up(v) if k in ('dst', 'n', 'src', 'x', 'val') else v) for k, v in st.items()}
+                st2['at'] = len(P.events) + st['at']
+                P2.stores.append(st2)
             # the value returned on this path of the helper: a ternary whose condition this path has decided is its arm
             v = rename_params(h, args, fold_by_facts(q.facts, q.ret)) if q.ret else ''
             P2.callvals[full] = v if CALL.match(v) else '(' + norm(v) + ')'
@@ -400,6 +547,8 @@ def enum_paths(fn, limit=20000):
             m = re.match(r'^return(?: (.*))?;$', txt)
             if m:
                 ret = P.subst(m.group(1)) if m.group(1) else ''
+                if inlinable(fn.name):
+                    ret = szfold(P, ret)     # sizeof(<local of this helper>) means nothing in the caller
                 P.rawret = m.group(1) or ''
                 continue
             # any declaration: remember the declared type
@@ -438,9 +587,20 @@ def enum_paths(fn, limit=20000):
                 P.env[m.group(1)] = str(v) if v is not None else '(' + cur + ' + 1)'
                 P.lastset[m.group(1)] = (P.env[m.group(1)], len(P.events))
                 continue
+            # resolve() parenthesises compound operands:  (request[(len + 1)]) = (l & 255)
+            m = re.match(r'^\(([^=]+)\) ((?:[-+*/|&^]|<<|>>)?=) (.*)$', txt)
+            if m and balanced(m.group(1)) and not txt.endswith(';') and re.search(r'\]$|^\*', m.group(1).strip()):
+                txt = '%s %s %s' % (m.group(1).strip(), m.group(2), m.group(3))
             m = re.match(r'^([A-Za-z_][A-Za-z0-9_]*(?:(?:\.|->)[A-Za-z_][A-Za-z0-9_]*|\[[^\]]*\])+) = (.*)$', txt)
             if m and not txt.endswith(';') and not is_subexpr(blk, i):
                 P.assigns.append((m.group(1), P.subst(m.group(2)))); P.assign_at.append(len(P.events))
+                if m.group(1).endswith(']'):
+                    record_assign(P, fn, (fn.name, bid, i), m.group(1), P.subst(m.group(2)))
+                continue
+            # any other store through a pointer / into an array cell:  *p = v,  (p + 2)[0] = v,  *p++ = v,  x[i] |= v
+            m = re.match(r'^(\*.*?|.*\]) ([-+*/|&^]|<<|>>)?= (.*)$', txt)
+            if m and not txt.endswith(';') and not is_subexpr(blk, i) and '==' not in m.group(1):
+                record_assign(P, fn, (fn.name, bid, i), m.group(1), P.subst(m.group(3)), m.group(2))
                 continue
             is_call_stmt = re.match(r'^\[B\d+\.\d+\]\(.*\)$', raw) is not None
             m = CALL.match(txt) if is_call_stmt else None
@@ -454,6 +614,7 @@ def enum_paths(fn, limit=20000):
                         run_block(bid, pos + 1, P2)
                     return
                 # calls used as operands are recorded too (e.g. strlen(part) inside an initialiser, select(...) in a decl)
+                record_copy(P, (fn.name, bid, i), m.group(1), cargs)
                 P.events.append((m.group(1), cargs, full))
                 for v in re.findall(r'&\(?([A-Za-z_][A-Za-z0-9_]*)\)?', full):
                     P.env.pop(v, None)
@@ -743,6 +904,420 @@ def fact_holds(P, text, truth):
             return True
     return False
 
+# ----------------------------------------------------------------------------- symbolic lengths
+# The request-shape rules compare lengths and offsets that are functions of strlen(user) and strlen(password):
+#   min(s, 256), 2 + min(s, 256), s (unclipped), min(s, 255) (what snprintf(.., 256, "%s", ..) copies), sums of these.
+# Each is a *separable piecewise-linear* function  c + f1(s1) + f2(s2) + k*atom...  over the non-negative integers; equality,
+# <= and suprema of such functions over the region a path's branch facts allow are decided exactly (no sampling): a
+# one-variable piecewise-linear function is a sorted list of pieces (lo, a, b) meaning a*s + b for lo <= s < next lo.
+
+class Und(Exception):
+    """the expression is outside the fragment that is decided (reported as an alarm, never as a pass)"""
+
+def pl_norm(f):
+    out = []
+    for lo, a, b in f:
+        if out and out[-1][1] == a and out[-1][2] == b:
+            continue
+        out.append((lo, a, b))
+    return out
+
+def pl_merge(*fs):
+    """common refinement: yields (lo, hi, [(a, b) of each function]) with hi None for the last, unbounded piece."""
+    los = sorted({lo for f in fs for lo, _, _ in f})
+    for i, lo in enumerate(los):
+        hi = los[i + 1] if i + 1 < len(los) else None
+        yield lo, hi, [[(a, b) for l, a, b in f if l <= lo][-1] for f in fs]
+
+def pl_const(c): return [(0, 0, c)]
+def pl_var(): return [(0, 1, 0)]
+def pl_add(f, g): return pl_norm([(lo, x[0] + y[0], x[1] + y[1]) for lo, hi, (x, y) in pl_merge(f, g)])
+def pl_scale(f, k): return pl_norm([(lo, a * k, b * k) for lo, a, b in f])
+def pl_sub(f, g): return pl_add(f, pl_scale(g, -1))
+def pl_eval(f, s): return [a * s + b for lo, a, b in f if lo <= s][-1]
+def pl_isconst(f): return len(f) == 1 and f[0][1] == 0
+
+def pl_cmp(f, op, g):
+    """indicator (0/1-valued function) of  f(s) op g(s)."""
+    test = {'<': lambda v: v < 0, '<=': lambda v: v <= 0, '>': lambda v: v > 0, '>=': lambda v: v >= 0, '==': lambda v: v == 0, '!=': lambda v: v != 0}[op]
+    out = []
+    for lo, hi, (x, y) in pl_merge(f, g):
+        a, b = x[0] - y[0], x[1] - y[1]
+        if a == 0:
+            out.append((lo, 0, int(test(b))))
+            continue
+        # a*s + b changes sign around r = -b/a: cut the piece at the integers next to r
+        cuts = {lo}
+        r = -b / a
+        for c in (int(r) - 1, int(r), int(r) + 1, int(r) + 2):
+            if c > lo and (hi is None or c < hi):
+                cuts.add(c)
+        for c in sorted(cuts):
+            # on [c, next cut) the sign is constant except possibly at the exact root, which is a cut itself
+            out.append((c, 0, int(test(a * c + b))))
+            if a * c + b == 0 and (hi is None or c + 1 < hi) and c + 1 not in cuts:
+                out.append((c + 1, 0, int(test(a * (c + 1) + b))))
+    return pl_norm(sorted(out))
+
+def pl_select(ind, f, g):
+    return pl_norm([(lo, *(x if i[1] else y)) for lo, hi, (i, x, y) in pl_merge(ind, f, g)])
+
+def pl_and(f, g): return pl_norm([(lo, 0, x[1] & y[1]) for lo, hi, (x, y) in pl_merge(f, g)])
+def pl_or(f, g): return pl_norm([(lo, 0, x[1] | y[1]) for lo, hi, (x, y) in pl_merge(f, g)])
+def pl_not(f): return [(lo, 0, 1 - b) for lo, a, b in f]
+PL_ALL = [(0, 0, 1)]
+
+def pl_on(f, dom):
+    """the pieces of f inside the domain dom (an indicator): (lo, hi, a, b)"""
+    return [(lo, hi, x[0], x[1]) for lo, hi, (x, d) in pl_merge(f, dom) if d[1]]
+
+def pl_empty(dom): return not pl_on(pl_const(0), dom)
+def pl_first(dom): return pl_on(pl_const(0), dom)[0][0]
+
+def pl_sup(f, dom, sign=1):
+    """(sup of sign*f over dom, a point where it is attained); (inf, point) if unbounded; None on an empty domain."""
+    best = None
+    for lo, hi, a, b in pl_on(f, dom):
+        a, b = a * sign, b * sign
+        if hi is None and a > 0:
+            return (float('inf'), lo + 1000)
+        for s in ((lo,) if hi is None else (lo, hi - 1)):
+            if best is None or a * s + b > best[0]:
+                best = (a * s + b, s)
+    return best
+
+def pl_const_on(f, dom):
+    """(True, value) if f is constant on dom, else (False, (s1, s2)) with f(s1) != f(s2)."""
+    seen = None
+    for lo, hi, a, b in pl_on(f, dom):
+        if a != 0 and (hi is None or hi - lo > 1):
+            return False, (lo, lo + 1)
+        v = a * lo + b
+        if seen is not None and seen[0] != v:
+            return False, (seen[1], lo)
+        seen = (v, lo)
+    return True, (seen[0] if seen else 0)
+
+class Sep:
+    """c + sum of one-variable piecewise-linear functions (one per string length) + integer multiples of opaque atoms (array bases)."""
+    def __init__(self, c=0, pl=None, atoms=None):
+        self.c, self.pl, self.atoms = c, {}, {k: v for k, v in (atoms or {}).items() if v}
+        for v, f in (pl or {}).items():
+            f = pl_norm(f)
+            if pl_isconst(f):
+                self.c += f[0][2]
+            else:
+                self.pl[v] = f
+    def __add__(self, o):
+        pl = dict(self.pl)
+        for v, f in o.pl.items():
+            pl[v] = pl_add(pl[v], f) if v in pl else f
+        at = dict(self.atoms)
+        for k, n in o.atoms.items():
+            at[k] = at.get(k, 0) + n
+        return Sep(self.c + o.c, pl, at)
+    def scale(self, k): return Sep(self.c * k, {v: pl_scale(f, k) for v, f in self.pl.items()}, {a: n * k for a, n in self.atoms.items()})
+    def __sub__(self, o): return self + o.scale(-1)
+    def isconst(self): return not self.pl and not self.atoms
+    def eval(self, w): return self.c + sum(pl_eval(f, w.get(v, 0)) for v, f in self.pl.items())
+
+def sep_sup(f, dom, sign=1):
+    """(sup of sign*f over the box dom, witness); atoms make it unbounded."""
+    if f.atoms:
+        return float('inf'), {}
+    tot, w = f.c * sign, {}
+    for v, g in f.pl.items():
+        r = pl_sup(g, dom.get(v, PL_ALL), sign)
+        tot += r[0]
+        w[v] = r[1]
+    return tot, w
+
+def sep_le(f, g, dom):
+    """None if f <= g everywhere on dom, else a witness assignment."""
+    s, w = sep_sup(f - g, dom)
+    return None if s <= 0 else w
+
+def sep_eq(f, g, dom):
+    """None if f == g everywhere on dom, else a witness assignment {var: value} (possibly empty) where they differ."""
+    d = f - g
+    if d.atoms:
+        return {}
+    tot, w, nonconst = d.c, {}, None
+    for v, h in d.pl.items():
+        ok, r = pl_const_on(h, dom.get(v, PL_ALL))
+        if ok:
+            tot += r
+            w[v] = pl_first(dom.get(v, PL_ALL))
+        else:
+            nonconst = (v, r)
+    if nonconst is None:
+        return None if tot == 0 else w
+    v, (s1, s2) = nonconst
+    for v2, h in d.pl.items():
+        w.setdefault(v2, pl_first(dom.get(v2, PL_ALL)))
+    for s in (s1, s2):
+        w[v] = s
+        if d.eval(w) != 0:
+            return dict(w)
+    return dict(w)
+
+# ---- a small C expression parser (the text produced by resolve()/subst()) -> Sep
+
+_TOK = re.compile(r'\s*(?:(0[xX][0-9a-fA-F]+|\d+)[uUlL]*|([A-Za-z_$][A-Za-z0-9_$]*)|("(?:[^"\\]|\\.)*")|(\'(?:[^\'\\]|\\.)\')|(->|<<|>>|<=|>=|==|!=|&&|\|\||[-+*/%<>&|^!~?:(),.\[\]]))')
+_TYPEWORDS = {"const", "volatile", "unsigned", "signed", "struct", "char", "short", "int", "long", "void", "size_t", "ssize_t"}
+_PREC = {'||': 1, '&&': 2, '|': 3, '^': 4, '&': 5, '==': 6, '!=': 6, '<': 7, '<=': 7, '>': 7, '>=': 7, '<<': 8, '>>': 8, '+': 9, '-': 9, '*': 10, '/': 10, '%': 10}
+
+def c_tokens(text):
+    toks, i = [], 0
+    text = text.strip()
+    while i < len(text):
+        m = _TOK.match(text, i)
+        if not m or m.end() == i:
+            raise Und("cannot tokenise %r" % text[i:i + 20])
+        i = m.end()
+        if m.group(1) is not None: toks.append(('num', int(m.group(1), 0)))
+        elif m.group(2) is not None: toks.append(('id', m.group(2)))
+        elif m.group(3) is not None: toks.append(('str', m.group(3)))
+        elif m.group(4) is not None: toks.append(('chr', m.group(4)))
+        else: toks.append(('op', m.group(5)))
+    return toks
+
+def c_parse(text):
+    toks = c_tokens(text)
+    pos = [0]
+    def peek(k=0): return toks[pos[0] + k] if pos[0] + k < len(toks) else ('end', None)
+    def take():
+        t = peek(); pos[0] += 1; return t
+    def expect(op):
+        if take() != ('op', op): raise Und("expected %r in %r" % (op, text))
+    def is_type(ts):
+        if not ts: return False
+        names = [v for k, v in ts if k == 'id']
+        return all((k == 'id' and (v in _TYPEWORDS or v.endswith('_t'))) or (k, v) == ('op', '*') for k, v in ts) and names and ts[0][0] == 'id'
+    def closing(i):
+        d = 0
+        for j in range(i, len(toks)):
+            if toks[j] == ('op', '('): d += 1
+            elif toks[j] == ('op', ')'):
+                d -= 1
+                if d == 0: return j
+        raise Und("unbalanced parentheses in %r" % text)
+    def ternary():
+        c = binary(1)
+        if peek() == ('op', '?'):
+            take(); a = ternary(); expect(':'); b = ternary()
+            return ('tern', c, a, b)
+        return c
+    def binary(minp):
+        l = unary()
+        while peek()[0] == 'op' and peek()[1] in _PREC and _PREC[peek()[1]] >= minp:
+            op = take()[1]
+            r = binary(_PREC[op] + 1)
+            l = ('bin', op, l, r)
+        return l
+    def unary():
+        t = peek()
+        if t == ('id', 'sizeof'):
+            take()
+            if peek() != ('op', '('): raise Und("sizeof without parentheses")
+            j = closing(pos[0])
+            inner = toks[pos[0] + 1:j]
+            pos[0] = j + 1
+            return ('sizeof', ' '.join(str(v) for k, v in inner))
+        if t[0] == 'op' and t[1] in ('!', '-', '+', '~', '&', '*'):
+            take()
+            return ('un', t[1], unary())
+        if t == ('op', '('):
+            j = closing(pos[0])
+            inner = toks[pos[0] + 1:j]
+            nxt = toks[j + 1] if j + 1 < len(toks) else ('end', None)
+            if is_type(inner) and (nxt[0] in ('num', 'id', 'str', 'chr') or nxt in (('op', '('), ('op', '&'), ('op', '*'), ('op', '-'), ('op', '!'), ('op', '~'))):
+                pos[0] = j + 1
+                return ('cast', ' '.join(v for k, v in inner), unary())
+        return postfix()
+    def postfix():
+        t = take()
+        if t[0] == 'num': e = ('num', t[1])
+        elif t[0] == 'chr': e = ('num', ord(t[1][1]) if len(t[1]) == 3 else 0)
+        elif t[0] == 'str': e = ('str', t[1])
+        elif t[0] == 'id': e = ('id', t[1])
+        elif t == ('op', '('):
+            e = ternary(); expect(')')
+        else:
+            raise Und("unexpected %r in %r" % (t[1], text))
+        while True:
+            t = peek()
+            if t == ('op', '('):
+                take(); args = []
+                if peek() != ('op', ')'):
+                    args.append(ternary())
+                    while peek() == ('op', ','):
+                        take(); args.append(ternary())
+                expect(')')
+                e = ('call', e, args)
+            elif t == ('op', '['):
+                take(); i = ternary(); expect(']')
+                e = ('index', e, i)
+            elif t in (('op', '->'), ('op', '.')):
+                take(); n = take()
+                if n[0] != 'id': raise Und("member name expected in %r" % text)
+                e = ('member', e, t[1], n[1])
+            else:
+                return e
+    e = ternary()
+    if pos[0] != len(toks):
+        raise Und("trailing %r in %r" % (peek()[1], text))
+    return e
+
+def c_unparse(e):
+    k = e[0]
+    if k == 'num': return str(e[1])
+    if k in ('id', 'str'): return e[1]
+    if k == 'member': return c_unparse(e[1]) + e[2] + e[3]
+    if k == 'index': return '%s[%s]' % (c_unparse(e[1]), c_unparse(e[2]))
+    if k == 'call': return '%s(%s)' % (c_unparse(e[1]), ', '.join(c_unparse(a) for a in e[2]))
+    if k == 'un': return e[1] + c_unparse(e[2])
+    if k == 'cast': return '(%s)%s' % (e[1], c_unparse(e[2]))
+    if k == 'bin': return '(%s %s %s)' % (c_unparse(e[2]), e[1], c_unparse(e[3]))
+    if k == 'tern': return '(%s ? %s : %s)' % (c_unparse(e[1]), c_unparse(e[2]), c_unparse(e[3]))
+    if k == 'sizeof': return 'sizeof(%s)' % e[1]
+    return '?'
+
+def c_strip(e):
+    """drop casts (value or pointer casts between char/void pointers and integer types are checked by the caller)"""
+    while e[0] == 'cast':
+        e = e[2]
+    return e
+
+_PTRCASTS = {"void *", "const void *", "char *", "const char *", "unsigned char *", "const unsigned char *", "u_int8_t *", "uint8_t *"}
+_INTCASTS = {"size_t", "ssize_t", "long", "unsigned long", "int", "unsigned int", "unsigned", "long int", "unsigned long int"}
+
+class SymEnv:
+    """turns expression text into Sep values; string lengths become variables named by the string's designator."""
+    def __init__(self, decls, arrays=()):
+        self.decls, self.arrays = decls, set(arrays)
+    def designator(self, e):
+        e = c_strip(e)
+        if e[0] in ('id', 'member'):
+            return c_unparse(e)
+        raise Und("string operand %s is not a plain variable or field" % c_unparse(e))
+    def strlen(self, e):
+        e = c_strip(e)
+        if e[0] == 'str':
+            if '\\' in e[1]: raise Und("string literal with escapes")
+            return Sep(len(e[1]) - 2)
+        return Sep(0, {self.designator(e): pl_var()})
+    def sep(self, e):
+        if isinstance(e, str):
+            e = c_parse(e)
+        k = e[0]
+        if k == 'num': return Sep(e[1])
+        if k == 'id':
+            if e[1] in ENUMS: return Sep(ENUMS[e[1]])
+            return Sep(0, None, {e[1]: 1})
+        if k == 'sizeof':
+            s = type_size(self.decls[e[1]]) if e[1] in self.decls else type_size(e[1])
+            if not s: raise Und("sizeof(%s) unknown" % e[1])
+            return Sep(s)
+        if k == 'cast':
+            t = re.sub(r'\s+', ' ', e[1]).strip()
+            if t in _PTRCASTS or t in _INTCASTS:
+                return self.sep(e[2])       # values here are far below 2^31; pointer casts between byte pointers keep the address
+            if t in SIZES and SIZES[t] in (1, 2):
+                raise Und("narrowing cast (%s)" % t)
+            raise Und("cast to %s" % t)
+        if k == 'un':
+            if e[1] == '-': return self.sep(e[2]).scale(-1)
+            if e[1] == '+': return self.sep(e[2])
+            if e[1] == '&':
+                x = c_strip(e[2])
+                if x[0] == 'index': return self.sep(x[1]) + self.sep(x[2])      # &b[i] == b + i  (byte arrays only; checked by the caller through the base's type)
+                if x[0] == 'id': return Sep(0, None, {x[1]: 1})
+            if e[1] == '*':
+                x = c_strip(e[2])
+                if x[0] == 'un' and x[1] == '&': return self.sep(x[2])
+            raise Und("operator %s in %s" % (e[1], c_unparse(e)))
+        if k == 'bin':
+            op = e[1]
+            if op in ('+', '-'):
+                l, r = self.sep(e[2]), self.sep(e[3])
+                return l + r if op == '+' else l - r
+            if op == '*':
+                l, r = self.sep(e[2]), self.sep(e[3])
+                if l.isconst(): return r.scale(l.c)
+                if r.isconst(): return l.scale(r.c)
+            if op in ('/', '%', '<<', '>>', '&', '|'):
+                l, r = self.sep(e[2]), self.sep(e[3])
+                if l.isconst() and r.isconst() and l.c >= 0 and r.c > 0 - (op not in '/%'):
+                    return Sep({'/': lambda a, b: a // b, '%': lambda a, b: a % b, '<<': lambda a, b: a << b, '>>': lambda a, b: a >> b, '&': lambda a, b: a & b, '|': lambda a, b: a | b}[op](l.c, r.c))
+            raise Und("operator %s on non-constant operands in %s" % (op, c_unparse(e)))
+        if k == 'tern':
+            v, ind = self.ind(e[1])
+            a, b = self.sep(e[2]), self.sep(e[3])
+            if v is None:
+                return a if ind else b
+            # both arms may depend on v only; whatever else they contain must be identical
+            ra, rb = Sep(0, {x: f for x, f in a.pl.items() if x != v}, a.atoms), Sep(0, {x: f for x, f in b.pl.items() if x != v}, b.atoms)
+            if sep_eq(ra, rb, {}) is not None:
+                raise Und("the arms of %s differ in more than the tested length" % c_unparse(e))
+            fa, fb = pl_add(a.pl.get(v, pl_const(0)), pl_const(a.c)), pl_add(b.pl.get(v, pl_const(0)), pl_const(b.c))
+            return ra + Sep(0, {v: pl_select(ind, fa, fb)})
+        if k == 'call':
+            f, args = c_unparse(e[1]), e[2]
+            if f == 'strlen' and len(args) == 1:
+                return self.strlen(args[0])
+            if f == 'snprintf' and len(args) == 4 and c_strip(args[2]) == ('str', '"%s"'):
+                return self.strlen(args[3])        # snprintf returns the length of the string it was asked to print, clipped or not
+            if f in ('strnlen', '__min') and len(args) == 2:
+                a, b = (self.strlen(args[0]) if f == 'strnlen' else self.sep(args[0])), self.sep(args[1])
+                return self.sep_min(a, b, e)
+            raise Und("value of %s(...) is not followed" % f)
+        raise Und("expression %s" % c_unparse(e))
+    def sep_min(self, a, b, e=None):
+        e = e or ('id', 'min(...)')
+        d = a - b
+        if d.atoms or len(d.pl) > 1:
+            raise Und("min of %s" % c_unparse(e))
+        if not d.pl:
+            return a if d.c <= 0 else b
+        v = next(iter(d.pl))
+        ind = pl_cmp(pl_add(d.pl[v], pl_const(d.c)), '<=', pl_const(0))
+        ra = Sep(0, {x: f for x, f in a.pl.items() if x != v}, a.atoms)
+        rb = Sep(0, {x: f for x, f in b.pl.items() if x != v}, b.atoms)
+        if sep_eq(ra, rb, {}) is not None:
+            raise Und("min of %s" % c_unparse(e))
+        return ra + Sep(0, {v: pl_select(ind, pl_add(a.pl.get(v, pl_const(0)), pl_const(a.c)), pl_add(b.pl.get(v, pl_const(0)), pl_const(b.c)))})
+    def ind(self, e):
+        """a condition as (variable, indicator) or (None, bool)."""
+        if isinstance(e, str):
+            e = c_parse(e)
+        if e[0] == 'un' and e[1] == '!':
+            v, i = self.ind(e[2])
+            return (v, (not i) if v is None else pl_not(i))
+        if e[0] == 'bin' and e[1] in ('&&', '||'):
+            (v1, i1), (v2, i2) = self.ind(e[2]), self.ind(e[3])
+            if v1 is None and v2 is None:
+                return None, (i1 and i2) if e[1] == '&&' else (i1 or i2)
+            if v1 is None:
+                return (v2, i2) if i1 == (e[1] == '&&') else (None, i1)
+            if v2 is None:
+                return (v1, i1) if i2 == (e[1] == '&&') else (None, i2)
+            if v1 != v2:
+                raise Und("condition on two lengths: %s" % c_unparse(e))
+            return v1, (pl_and if e[1] == '&&' else pl_or)(i1, i2)
+        if e[0] == 'bin' and e[1] in ('<', '<=', '>', '>=', '==', '!='):
+            d = self.sep(e[2]) - self.sep(e[3])
+            op = e[1]
+        else:
+            d, op = self.sep(e), '!='
+        if d.atoms or len(d.pl) > 1:
+            raise Und("condition %s is not about one string length" % c_unparse(e))
+        test = {'<': lambda v: v < 0, '<=': lambda v: v <= 0, '>': lambda v: v > 0, '>=': lambda v: v >= 0, '==': lambda v: v == 0, '!=': lambda v: v != 0}[op]
+        if not d.pl:
+            return None, test(d.c)
+        v = next(iter(d.pl))
+        return v, pl_cmp(pl_add(d.pl[v], pl_const(d.c)), op, pl_const(0))
+
 # ----------------------------------------------------------------------------- obligations / evidence
 
 class Ctx:
@@ -780,16 +1355,21 @@ EXPLAIN = ("The PAM module succeeds only on an explicit OK — structural part d
            "_whawty_recv_response fills, zeroed over its whole size (by the caller or by _whawty_recv_response itself before its first read); "
            "(C20.2) buffer discipline: that object has MAX+1 bytes (declaration / clang record layout), and at most "
            "min(ntohs(len), MAX) bytes are read into it, the length being decoded big-endian from a 2-byte field (a 16-bit integer through ntohs, or two unsigned bytes (b0 << 8) | b1); "
-           "the socket path copy is bounded by sizeof; no unbounded copy functions; (C20.3 = C13.4) the request is "
+           "the socket path copy is bounded by sizeof; no unbounded copy functions, and every memcpy/memmove/strncpy/snprintf stays inside a local byte array of known size "
+           "for every string length the path allows (offset + length <= size, decided symbolically); (C20.3 = C13.4) the request is "
            "user, password, \"\", \"\" in this order, each sent as htons(min(strlen, 256)) in a 2-byte field (or its two bytes (x >> 8) & 0xff, x & 0xff) followed by that many bytes, and the C limit equals the "
-           "Go codec's MaxRequestLength; (C20.4) every read/write on the socket is preceded in its loop iteration by select() with a timeout from ctx->timeout_, a zero "
+           "Go codec's MaxRequestLength; the encoder of one part is decided wherever it lives: _whawty_send_request_part writing length field and payload itself, or the request (or one part) assembled "
+           "in a local buffer and handed to ONE write — then the bytes stored into the buffer are followed (memcpy, snprintf(\"%s\") = min(strlen, n-1) bytes + NUL returning strlen, strncpy, memset, byte stores, "
+           "*(u16*)p = htons(x)) and the buffer content at the write must be, per part in order, the big-endian 16-bit min(strlen, 256) and exactly that many bytes of that field, the write starting at the "
+           "buffer's beginning with exactly the assembled length, its result compared with that length; (C20.4) every read/write on the socket is preceded in its loop iteration by select() with a timeout from ctx->timeout_, a zero "
            "return of select leaves the function, every iteration that goes round again has transferred a non-zero count (a 0-byte read/write leaves the loop; no errno test in its place), "
            "and the timeout option only accepts positive values; (C20.5) every exit of pam_sm_authenticate passes _whawty_cleanup, "
            "which overwrites the password before dropping it and closes a non-negative socket.")
 UNDEC = ["run-time behaviour of the compiled module against real servers", "timing (wall-clock bounds)", "memory safety at the level of a sanitizer run",
          "host-process state outside the property's quantifier (observed, not findings: the EINTR test in both select loops is inverted so a persistent non-EINTR select error spins; FD_SET is used without an FD_SETSIZE check)"]
 TRUSTED = ["clang 14's parser and CFG builder", "the stub PAM headers in /verif/pam/stubs (declare the PAM API; map _pam_overwrite/_pam_drop to marker functions)",
-           "libc semantics of socket/select/read/write/snprintf/strncmp/htons/ntohs", "local variables are not modified through aliases (none has its address taken except len/addr/tv/fd sets passed to libc; an array handed to a call is unknown afterwards)",
+           "libc semantics of socket/select/read/write/snprintf/strncmp/htons/ntohs/memcpy/memmove/strncpy/memset/strlen/strnlen (snprintf(d, n, \"%s\", s) stores min(strlen(s), n-1) bytes and a NUL and returns strlen(s))",
+           "the strings of the request (ctx->username_, ctx->password_) do not change while the request is assembled, and lengths stay far below 2^31 (no wrap-around in offset arithmetic)", "local variables are not modified through aliases (none has its address taken except len/addr/tv/fd sets passed to libc; an array handed to a call is unknown afterwards)",
            "clang's record layout dump (-fdump-record-layouts) for the size of a struct-typed response buffer", "size_t, ssize_t and long have the same width (a cast between them does not change an equality)"]
 
 def finish(c):
@@ -1008,8 +1588,340 @@ def obj_size(p, o):
     m = re.fullmatch(r'(?:unsigned |signed )?char\s*\[(\d+)\]', f[1]) if f else None
     return int(m.group(1)) if m else None
 
+# ---- the request as it reaches the socket when it is assembled in a buffer first (one-buffer form of the encoder)
+
+REQ_FIELDS = ["ctx->username_", "ctx->password_", '""', '""']
+REQ_NAMES = ["user", "password", "service", "realm"]
+COPY_CALLS = ("memcpy", "memmove", "strncpy", "snprintf")
+
+def reaches(funcs, name, target, seen=None):
+    """the function `name` calls `target`, directly or through other functions of the file (callee names are statements of their own in the CFG)."""
+    seen = seen if seen is not None else set()
+    if name in seen or name not in funcs:
+        return False
+    seen.add(name)
+    callees = {raw for b in funcs[name].blocks.values() for raw in b.stmts.values() if re.fullmatch(r'[A-Za-z_][A-Za-z0-9_]*', raw)}
+    return target in callees or any(reaches(funcs, c, target, seen) for c in callees if c in funcs)
+
+def inlined_closure(funcs, name, seen=None):
+    """the helpers interpreted inside function `name` (transitively)."""
+    seen = seen if seen is not None else set()
+    for raw in {raw for b in funcs[name].blocks.values() for raw in b.stmts.values()}:
+        if raw in funcs and raw not in seen and inlinable(raw):
+            seen.add(raw)
+            inlined_closure(funcs, raw, seen)
+    return seen
+
+def open_loops(funcs, name):
+    """functions among `name` and the helpers interpreted inside it that contain a loop the path enumeration did not unroll (its trip
+    count is not decided by constants): what such a loop stores is not on any enumerated path."""
+    return sorted(f for f in [name] + sorted(inlined_closure(funcs, name)) if BACK.get(f))
+
+def path_domain(p, env):
+    """the string lengths this path's branch facts allow ({variable: indicator}); None if the facts contradict each other."""
+    dom = {}
+    for f, t in closed_facts(p):
+        try:
+            v, ind = env.ind(f)
+        except (Und, RecursionError):
+            continue
+        if v is None:
+            if bool(ind) != t:
+                return None
+            continue
+        dom[v] = pl_and(dom.get(v, PL_ALL), ind if t else pl_not(ind))
+        if pl_empty(dom[v]):
+            return None
+    return dom
+
+def byte_arrays(p):
+    return {v for v, ty in p.decls.items() if re.fullmatch(r'(?:unsigned |signed )?char \[\d+\]', ty)}
+
+def witness_text(w, dom):
+    return ", ".join("strlen(%s) = %d" % (v, s) for v, s in sorted(w.items())) or "every input"
+
+def full_witness(w, dom, *seps):
+    w = dict(w)
+    for f in seps:
+        for v in f.pl:
+            w.setdefault(v, pl_first(dom.get(v, PL_ALL)))
+    return w
+
+def sep_find(dom, seps, pred):
+    """an assignment of the string lengths occurring in seps, inside dom, with pred(w) true, searched among the end points of the
+    linear pieces (used to word a complaint with a concrete input, never to decide one); None if there is none among them."""
+    vs = sorted({v for f in seps for v in f.pl})
+    cands = []
+    for v in vs:
+        pts = set()
+        for lo, hi, xs in pl_merge(*([f.pl[v] for f in seps if v in f.pl] + [dom.get(v, PL_ALL)])):
+            if xs[-1][1]:
+                pts |= {lo, lo + 1, (hi - 1) if hi is not None else lo + 2}
+        cands.append(sorted(x for x in pts if pl_eval(dom.get(v, PL_ALL), x))[:24])
+    for combo in itertools.islice(itertools.product(*cands), 20000):
+        w = dict(zip(vs, combo))
+        if pred(w):
+            return w
+    return None
+
+def byte_of(val):
+    """('hi', X) for (X >> 8) [& 255] / X / 256, ('lo', X) for X & 255 / X % 256 / X stored into a byte; X as an expression tree."""
+    e = c_strip(c_parse(val))
+    if e[0] == 'bin' and e[1] == '&' and c_strip(e[3]) == ('num', 255):
+        x = c_strip(e[2])
+        if x[0] == 'bin' and (x[1], c_strip(x[3])) in (('>>', ('num', 8)), ('/', ('num', 256))):
+            return 'hi', x[2]
+        return 'lo', x
+    if e[0] == 'bin' and (e[1], c_strip(e[3])) in (('>>', ('num', 8)), ('/', ('num', 256))):
+        return 'hi', e[2]
+    if e[0] == 'bin' and (e[1], c_strip(e[3])) == ('%', ('num', 256)):
+        return 'lo', e[2]
+    return 'lo', e
+
+def assembled_request(p, widx, REQ_FIELDS=REQ_FIELDS, REQ_NAMES=REQ_NAMES):
+    """The bytes on the wire when path p of _whawty_send_request hands a locally assembled buffer to the write that is event widx
+    (REQ_FIELDS: the strings the request consists of; ["part"] when the function assembles and writes one part).
+    Expected (the Go encoder's bytes for user, password, "", ""): for part k at offset O_k = sum_{j<k} (2 + N_j), N = min(strlen, 256):
+    byte O_k = N_k >> 8, byte O_k+1 = N_k & 255, bytes O_k+2 .. O_k+2+N_k-1 = the first N_k bytes of the field; write length O_4.
+    Every store into the buffer before the write is related to each expected element (disjoint / overwrites it completely with the
+    right or with other content / may overlap it), last writer wins; all relations are decided for every string length the path's
+    facts allow. Returns complaint lists {order, frame, width, written} and the kinds of length field seen; None for an infeasible path."""
+    R = {"order": [], "frame": [], "width": [], "written": [], "kinds": set()}
+    env = SymEnv(p.decls)
+    dom = path_domain(p, env)
+    if dom is None:
+        return None
+    a = [norm(x) for x in p.events[widx][1]]
+    try:
+        d = env.sep(a[1])
+        L = env.sep(a[2])
+    except Und as ex:
+        R["written"].append(("args", "cannot follow the buffer / length handed to the write %s: %s" % (p.events[widx][2], ex)))
+        return R
+    bases = [b for b in d.atoms if b in byte_arrays(p)]
+    if len(d.atoms) != 1 or len(bases) != 1 or d.atoms[bases[0]] != 1:
+        R["written"].append(("buffer", "the data written (%s) is not a byte buffer assembled in %s" % (a[1], p.fn.name)))
+        return R
+    B = bases[0]
+    base = Sep(0, None, {B: 1})
+    if sep_eq(d, base, dom) is not None:
+        R["written"].append(("start", "the write starts at %s, not at the beginning of %s" % (a[1], B)))
+    N = [env.sep_min(env.sep('strlen(%s)' % F), Sep(MAXC)) for F in REQ_FIELDS]
+    O = [Sep(0)]
+    NP = len(REQ_FIELDS)
+    for k in range(NP):
+        O.append(O[k] + Sep(2) + N[k])
+    w = sep_eq(L, O[NP], dom)
+    if w is not None:
+        w = full_witness(w, dom, L, O[NP])
+        R["written"].append(("length", "the single write hands over %s bytes but the well-formed request (sum over the %d parts of 2 + min(strlen, %d)) has %s (%s)" % (
+            L.eval(w) if not L.atoms else a[2], NP, MAXC, O[NP].eval(w), witness_text(w, dom))))
+    elems = []
+    for k in range(NP):
+        elems.append({"what": "hi", "k": k, "e": O[k], "m": Sep(1)})
+        elems.append({"what": "lo", "k": k, "e": O[k] + Sep(1), "m": Sep(1)})
+        if sep_eq(N[k], Sep(0), dom) is not None:
+            elems.append({"what": "pay", "k": k, "e": O[k] + Sep(2), "m": N[k]})
+    for E in elems:
+        E["status"], E["notes"] = "missing", []
+    def mentions(x):        # the argument is (or may be) a pointer into the buffer
+        if not re.search(r'(?<![A-Za-z0-9_$>.])%s(?![A-Za-z0-9_$])' % re.escape(B), x):
+            return False
+        try:
+            return B in env.sep(x).atoms
+        except (Und, RecursionError):
+            return True
+    for ev in p.events[:widx]:
+        if ev[0] not in COPY_CALLS + ("memset", "verif_pam_overwrite_n", "_whawty_write_data") and any(mentions(x) for x in ev[1]):
+            R["frame"].append(("call", "%s is handed to %s() before it is written: what that call stores is not followed" % (B, ev[0])))
+            return R
+
+    def content(E, st, a0):
+        k, F = E["k"], REQ_FIELDS[E["k"]]
+        label = "part %d (%s)" % (k + 1, REQ_NAMES[k])
+        if E["what"] in ("hi", "lo"):
+            if st["kind"] == "be16":
+                xs = env.sep(st["x"])
+                pos = a0 if E["what"] == "hi" else a0 + Sep(1)
+                if sep_eq(pos, E["e"], dom) is not None:
+                    return "a 16-bit value is stored across it at the wrong offset by `%s`" % st["call"]
+                R["kinds"].add("int16")
+            elif st["kind"] == "byte":
+                which, x = byte_of(st["val"])
+                xs = env.sep(x)
+                if which != E["what"]:
+                    # a constant byte is fine where the expected byte is that same constant (0 as the high byte of an empty part)
+                    nv = next(iter(N[k].pl), None)
+                    okn, nk = pl_const_on(pl_add(N[k].pl[nv], pl_const(N[k].c)), dom.get(nv, PL_ALL)) if nv else (True, N[k].c)
+                    if which == 'lo' and xs.isconst() and okn and xs.c == ((nk >> 8) & 255 if E["what"] == "hi" else nk & 255):
+                        R["kinds"].add("bytes")
+                        return None
+                    return "the %s byte of the length is stored as `%s` (the length field is big-endian: high byte first)" % ("high" if E["what"] == "hi" else "low", st["call"].strip())
+                R["kinds"].add("bytes")
+            elif st["kind"] == "fill":
+                # filling with a constant is fine where the expected byte is that constant (memset(.., 0, 4) for two empty parts)
+                nv = next(iter(N[k].pl), None)
+                okn, nk = pl_const_on(pl_add(N[k].pl[nv], pl_const(N[k].c)), dom.get(nv, PL_ALL)) if nv else (True, N[k].c)
+                try:
+                    fv = env.sep(st["val"])
+                except Und:
+                    fv = None
+                if fv is not None and fv.isconst() and okn and fv.c == ((nk >> 8) & 255 if E["what"] == "hi" else nk & 255):
+                    R["kinds"].add("bytes")
+                    return None
+                return "it is filled with %s by `%s`" % (st["val"], st["call"])
+            else:
+                return "it is overwritten with field data by `%s`" % st["call"]
+            w = sep_eq(xs, N[k], dom)
+            if w is not None:
+                w = full_witness(w, dom, xs, N[k])
+                return ("the 16-bit length prefix holds %s, not min(strlen(%s), %d): for %s it announces %s bytes while %d bytes of the field follow" % (
+                    st.get("x") or c_unparse(x), F, MAXC, witness_text(w, dom), xs.eval(w) if not xs.atoms else "?", N[k].eval(w)))
+            return None
+        # payload
+        if st["kind"] == "bytes":
+            if flat(st["src"]) != flat(F):
+                R["order"].append((label, "%s carries the bytes of %s, expected %s" % (label, st["src"], F)))
+                return "it holds the bytes of %s" % st["src"]
+            if sep_eq(a0, E["e"], dom) is not None:
+                return "the field's bytes are stored by `%s` at another offset than right after the length prefix" % st["call"]
+            return None
+        if st["kind"] == "fill":
+            return "it is filled with %s by `%s`" % (st["val"], st["call"])
+        return "it is overwritten by `%s`" % st["call"]
+
+    for st in p.stores:
+        if st["at"] > widx:
+            continue
+        try:
+            if st["dst"] is None:
+                raise Und(st.get("why", "store not followed"))
+            sd = env.sep(st["dst"])
+            if B not in sd.atoms:
+                continue                    # a store into another object
+            if sd.atoms != {B: 1} or st["kind"] == "opaque" or st["n"] is None:
+                raise Und(st.get("why", "target %s" % st["dst"]))
+            a0, n = sd - base, env.sep(st["n"])
+            for E in elems:
+                e, m = E["e"], E["m"]
+                if sep_le(a0 + n, e, dom) is None or sep_le(e + m, a0, dom) is None:
+                    continue                # never touches it
+                if sep_le(a0, e, dom) is None and sep_le(e + m, a0 + n, dom) is None:
+                    why = content(E, st, a0)
+                    E["status"], E["notes"] = ("ok", []) if why is None else ("bad", [why])
+                    continue
+                # may overlap it without replacing it completely
+                note = "`%s` may overwrite part of it" % st["call"]
+                if E["what"] == "pay" and st["kind"] == "bytes" and flat(st["src"]) == flat(REQ_FIELDS[E["k"]]) and sep_eq(a0, e, dom) is None:
+                    w = full_witness(sep_le(e + m, a0 + n, dom) or {}, dom, n, m)
+                    note = ("`%s` stores only %d bytes of the field where the prefix announces %d (%s)%s" % (
+                        st["call"], n.eval(w), m.eval(w), witness_text(w, dom),
+                        ": snprintf(dst, size, \"%s\", src) copies at most size-1 bytes and a NUL, and returns strlen(src)" if st.get("via") == "snprintf" else ""))
+                elif st["kind"] == "fill" and st.get("via"):
+                    rel = a0 - e
+                    w = sep_find(dom, [rel, m, n], lambda w: rel.eval(w) < m.eval(w) and rel.eval(w) + n.eval(w) > 0)
+                    if w is not None:
+                        note = "the NUL written by %s lands on byte %d (counted from 0) of the %d announced payload bytes (%s)" % (st["via"], max(rel.eval(w), 0), m.eval(w), witness_text(w, dom))
+                E["status"] = "partial"
+                E["notes"].append(note)
+        except (Und, RecursionError) as ex:
+            R["frame"].append(("store", "cannot follow the store `%s` into %s: %s" % (st["call"], B, ex)))
+            return R
+    for E in elems:
+        if E["what"] == "lo" and E["status"] != "ok" and (E["status"], E["notes"]) == (elems[elems.index(E) - 1]["status"], elems[elems.index(E) - 1]["notes"]):
+            continue                # same complaint as for the high byte: said once
+        if E["status"] == "ok":
+            continue
+        k = E["k"]
+        both = E["what"] == "hi" and (E["status"], E["notes"]) == (elems[elems.index(E) + 1]["status"], elems[elems.index(E) + 1]["notes"])
+        what = {"hi": "the length prefix" if both else "the high byte of the length prefix", "lo": "the low byte of the length prefix", "pay": "the payload (the first min(strlen, %d) bytes of %s)" % (MAXC, REQ_FIELDS[k])}[E["what"]]
+        msg = "part %d (%s): %s %s" % (k + 1, REQ_NAMES[k], what, "is never stored into %s" % B if E["status"] == "missing" else "is not what reaches the socket: " + "; ".join(E["notes"]))
+        R["frame"].append(("%d%s" % (k, E["what"]), msg))
+        if E["what"] != "pay":
+            R["width"].append(("%d%s" % (k, E["what"]), msg))
+    return R
+
+def assembled_paths(ps, sock, fields=REQ_FIELDS, names=REQ_NAMES):
+    """assembled_request over the success paths ps of a function that writes one assembled buffer to `sock`: one complaint per element
+    of the request (the one whose example input is the shortest), the kinds of length field seen, the number of feasible paths."""
+    asm = {"order": {}, "frame": {}, "width": {}, "written": {}, "kinds": set(), "paths": 0}
+    for p in ps:
+        ws = [k for k, e in enumerate(p.events) if e[0] == "_whawty_write_data"]
+        if len(ws) != 1:
+            asm["written"].setdefault("count", "%d writes on a success path of %s (one write of the assembled buffer expected)" % (len(ws), p.fn.name))
+            asm["paths"] += 1
+            continue
+        a = [norm(x) for x in p.events[ws[0]][1]]
+        if a[0] != sock:
+            asm["written"].setdefault("sock", "the buffer is written to %s, not to %s" % (a[0], sock))
+        r = assembled_request(p, ws[0], fields, names)
+        if r is None:
+            continue                # the path's facts contradict each other
+        asm["paths"] += 1
+        for k in ("order", "frame", "width", "written"):
+            for key, msg in r[k]:
+                rank = min([int(x) for x in re.findall(r'\) = (\d+)', msg)] or [0])
+                if key not in asm[k] or rank < asm[k][key][0]:
+                    asm[k][key] = (rank, msg)
+        asm["kinds"] |= r["kinds"]
+    return {k: (sorted(x[1] if isinstance(x, tuple) else x for x in v.values()) if isinstance(v, dict) else v) for k, v in asm.items()}
+
+def store_bounds(p, fname):
+    """every memcpy / memmove / strncpy / snprintf on path p stays inside its destination: the destination is a local byte array,
+    offset >= 0 and offset + length <= its size for every string length the path's facts allow; memcpy does not read beyond the
+    terminating NUL of a string source. Returns (complaints, sites proven)."""
+    bad, sites = [], set()
+    env = SymEnv(p.decls)
+    dom = None
+    for st in p.stores:
+        if not st["call"].startswith(COPY_CALLS) or st["site"] is None:
+            continue
+        if dom is None:
+            dom = path_domain(p, env)
+            if dom is None:
+                return None, None       # the path's facts contradict each other: nothing is executed
+        if st.get("via") == "snprintf" and norm(st["dst"].split(") + __min")[0].lstrip("(")) == "addr.sun_path" and norm(st["size"]) == "sizeof (addr.sun_path)":
+            sites.add(st["site"])       # the socket path copy: bounded by the destination's own sizeof (checked by name below)
+            continue
+        try:
+            if st["dst"] is None or st["n"] is None:
+                raise Und(st.get("why", "destination not followed"))
+            sd, n = env.sep(st["dst"]), env.sep(st["n"])
+            bases = [b for b in sd.atoms if b in byte_arrays(p)]
+            if len(sd.atoms) != 1 or len(bases) != 1 or sd.atoms[bases[0]] != 1:
+                raise Und("the destination %s is not a local byte array of known size" % st["dst"])
+            cap = type_size(p.decls[bases[0]])
+            off = sd - Sep(0, None, {bases[0]: 1})
+            hi, w = sep_sup(off + n, dom)
+            lo, w2 = sep_sup(off, dom, -1)
+            if hi > cap:
+                w = full_witness(w, dom, off, n)
+                bad.append("%s: `%s` stores up to byte %s of %s, which has %d (%s)" % (fname, st["call"], "?" if hi == float('inf') else hi, bases[0], cap, witness_text(w, dom)))
+            elif -lo < 0:
+                bad.append("%s: `%s` may store before the beginning of %s" % (fname, st["call"], bases[0]))
+            elif st["kind"] == "bytes" and not st.get("via") and sep_le(n, env.sep('strlen(%s)' % st["src"]) + Sep(1), dom) is not None:
+                w = full_witness(sep_le(n, env.sep('strlen(%s)' % st["src"]) + Sep(1), dom), dom, n)
+                bad.append("%s: `%s` reads %s bytes from a string of length %s" % (fname, st["call"], n.eval(w), witness_text(w, dom)))
+            else:
+                sites.add(st["site"])
+        except (Und, RecursionError) as ex:
+            bad.append("%s: the copy `%s` cannot be bounded: %s" % (fname, st["call"], ex))
+    return bad, sites
+
+def copy_sites(funcs):
+    """every call of a copy primitive in the file: (function, block, statement index, callee)."""
+    out = set()
+    for f in funcs.values():
+        for b in f.blocks.values():
+            for i, raw in b.stmts.items():
+                if re.match(r'^\[B\d+\.\d+\]\(.*\)$', raw):
+                    m = CALL.match(resolve(f, raw))
+                    if m and m.group(1) in COPY_CALLS:
+                        out.add((f.name, b.id, i, m.group(1)))
+    return out
+
 def run_rules(c, funcs, src_text, thorough):
-    need = ["pam_sm_authenticate", "_whawty_check_password", "_whawty_open_socket", "_whawty_send_request", "_whawty_send_request_part",
+    need = ["pam_sm_authenticate", "_whawty_check_password", "_whawty_open_socket", "_whawty_send_request",
             "_whawty_recv_response", "_whawty_read_data", "_whawty_write_data", "_whawty_cleanup", "_whawty_ctx_init", "_whawty_get_password", "_whawty_parse_args"]
     for n in need:
         if n not in funcs:
@@ -1018,7 +1930,18 @@ def run_rules(c, funcs, src_text, thorough):
         return
     FUNCS.clear(); FUNCS.update(funcs); _PATHS.clear(); INLINED.clear()
     ENUMS.clear(); ENUMS.update(parse_enums(src_text))
+    # the encoder of one request part, wherever it lives: the pinned function _whawty_send_request_part sending the part to the socket
+    # itself (length field, then payload), or code of / helpers interpreted inside _whawty_send_request that assemble the request in a
+    # local buffer which _whawty_send_request then writes. A function of the pinned name that never reaches the socket is such a helper.
+    per_part = "_whawty_send_request_part" in funcs and reaches(funcs, "_whawty_send_request_part", "_whawty_write_data")
+    UNPINNED.clear()
+    if "_whawty_send_request_part" in funcs and not per_part:
+        UNPINNED.add("_whawty_send_request_part")
     P = {n: enum_paths(funcs[n]) for n in funcs if not inlinable(n)}
+    if not per_part and not any(e[0] == "_whawty_write_data" for p in P["_whawty_send_request"] for e in p.events):
+        c.undecided("C20.0", "anchor:_whawty_send_request_part", "pam/pam_whawty.c", "UNRESOLVED: no encoder of a request part found: neither a function "
+                    "_whawty_send_request_part that writes to the socket nor a request assembled in a buffer and written by _whawty_send_request")
+        return
     c.stats["helpers_interpreted_inline"] = len(INLINED)
     c.stats["functions"] = len(funcs)
     c.stats["cfg_blocks"] = sum(len(f.blocks) for f in funcs.values())
@@ -1028,7 +1951,7 @@ def run_rules(c, funcs, src_text, thorough):
             tag = ""
             if isinstance(p, tuple):
                 tag, p = "BACK ", p[1]
-            sys.stderr.write("%s%s path %d blocks=%s ret=%r\n  facts=%s\n  events=%s\n  assigns=%s\n  env=%s\n  callvals=%s\n" % (tag, dn, k, p.blocks, p.ret, p.facts, [e[2] for e in p.events], p.assigns, p.env, p.callvals))
+            sys.stderr.write("%s%s path %d blocks=%s ret=%r\n  facts=%s\n  events=%s\n  assigns=%s\n  env=%s\n  callvals=%s\n  stores=%s\n" % (tag, dn, k, p.blocks, p.ret, p.facts, [e[2] for e in p.events], p.assigns, p.env, p.callvals, p.stores))
 
     # ---- C20.1 (a) pam_sm_authenticate
     bad, n = [], 0
@@ -1151,10 +2074,11 @@ def run_rules(c, funcs, src_text, thorough):
                     bad.append("success returned without [%s is %s] (path %s)" % (text, truth, p.blocks))
         c.check(not bad and ns >= 1, "C20.1", name + "|success-only-after-all-steps", line_of(name), desc, "; ".join(sorted(set(bad))))
     helper("_whawty_open_socket", [(r'ctx->sock_ < 0', False), (r'connect\(ctx->sock_, .*&addr, sizeof \(addr\)\) != 0', False)], "success only after socket()>=0 and connect()==0")
-    helper("_whawty_send_request", [(r'_whawty_send_request_part\(ctx->sock_, ctx->username_, ctx->timeout_\)', False), (r'_whawty_send_request_part\(ctx->sock_, ctx->password_, ctx->timeout_\)', False)],
-           "success only after every part was sent")
+    if per_part:
+        helper("_whawty_send_request", [(r'_whawty_send_request_part\(ctx->sock_, ctx->username_, ctx->timeout_\)', False), (r'_whawty_send_request_part\(ctx->sock_, ctx->password_, ctx->timeout_\)', False)],
+               "success only after every part was sent")
     # helpers whose steps are "transfer exactly n bytes": success only if every transfer returned exactly its length operand
-    def exact_transfers(name, prim):
+    def exact_transfers(name, prim, count=2):
         bad, ns = [], 0
         for p in P[name]:
             if p.ret is None:
@@ -1168,8 +2092,8 @@ def run_rules(c, funcs, src_text, thorough):
                 continue
             ns += 1
             evs = [e for e in p.events if e[0] == prim]
-            if len(evs) != 2:
-                bad.append("%d transfers on the success path (length field and payload expected)" % len(evs))
+            if len(evs) != count:
+                bad.append("%d transfers on the success path (%s expected)" % (len(evs), "length field and payload" if count == 2 else "one write of the assembled request"))
             for e in evs:
                 # ret != n false, ret == n true; a cast of either side to an integer of the same width does not change equality
                 x, n = flat(re.sub(WIDE, '', e[2])), flat(re.sub(WIDE, '', e[1][2]))
@@ -1178,24 +2102,53 @@ def run_rules(c, funcs, src_text, thorough):
         return bad, ns
     bad, ns = exact_transfers("_whawty_recv_response", "_whawty_read_data")
     c.check(not bad and ns >= 1, "C20.1", "_whawty_recv_response|success-only-after-all-steps", line_of("_whawty_recv_response"), "success only after both reads delivered exactly the expected number of bytes", "; ".join(sorted(set(bad))))
-    bad, ns = exact_transfers("_whawty_send_request_part", "_whawty_write_data")
-    c.check(not bad and ns >= 1, "C20.1", "_whawty_send_request_part|success-only-after-all-steps", line_of("_whawty_send_request_part"), "0 only after the length and the payload were written completely", "; ".join(bad))
+    # the request as assembled on each success path of _whawty_send_request (one-buffer form): decided once, reported under C20.1 / C20.3
+    asm = {"order": {}, "frame": {}, "width": {}, "written": {}, "kinds": set(), "paths": 0}
+    part_asm = False        # _whawty_send_request_part assembles length field and payload of its part in a local buffer and writes it once
+    if per_part:
+        okp = [p for p in P["_whawty_send_request_part"] if p.ret is not None and norm(p.ret) == "0"]
+        part_asm = bool(okp) and all([strip_casts(e[1][1]) in byte_arrays(p) for e in p.events if e[0] == "_whawty_write_data"] == [True] for p in okp)
+        bad, ns = exact_transfers("_whawty_send_request_part", "_whawty_write_data", 1 if part_asm else 2)
+        c.check(not bad and ns >= 1, "C20.1", "_whawty_send_request_part|success-only-after-all-steps", line_of("_whawty_send_request_part"), "0 only after the length and the payload were written completely", "; ".join(bad))
+    else:
+        bad, ns = exact_transfers("_whawty_send_request", "_whawty_write_data", 1)
+        c.check(not bad and ns >= 1, "C20.1", "_whawty_send_request|success-only-after-all-steps", line_of("_whawty_send_request"),
+                "success only after the single write of the assembled request returned exactly the assembled length", "; ".join(sorted(set(bad))))
+        asm = assembled_paths([p for p in P["_whawty_send_request"] if p.ret is not None and norm(p.ret) == "0"], "ctx->sock_")
+        for f in open_loops(funcs, "_whawty_send_request"):
+            asm["frame"].append("%s contains a loop whose number of iterations is not decided by constants: the bytes it may store into the request are not followed" % f)
+        c.check(not asm["written"] and asm["paths"] >= 1, "C20.1", "_whawty_send_request|assembled-request-written-completely", line_of("_whawty_send_request"),
+                "the one write starts at the beginning of the assembled buffer and its length is the sum of the four encoded parts on every success path (%d)" % asm["paths"],
+                "; ".join(sorted(set(asm["written"]))) or "no feasible success path")
 
     # ---- C20.3 request shape (= C13.4)
+    GO = ("the Go encoder (sasl.Request.Encode) sends, per field, BigEndian.PutUint16(len(field)) followed by the field's bytes, "
+          "fields of up to MaxRequestLength = %d bytes verbatim; the C encoder must produce the same bytes: " % MAXC)
     bad = []
     sp = [p for p in P["_whawty_send_request"] if p.ret is not None and norm(p.ret) == "0"]
-    if len(sp) != 1:
+    if not per_part:
+        # judged by which field's bytes sit in the payload of each part; a request that cannot be followed is reported under `frame`
+        bad = asm["order"] + ([] if asm["paths"] else ["no feasible success path in _whawty_send_request"])
+    elif len(sp) != 1:
         bad.append("%d success paths in _whawty_send_request" % len(sp))
     else:
         parts = [[norm(a) for a in e[1]] for e in sp[0].events if e[0] == "_whawty_send_request_part"]
         want = [["ctx->sock_", "ctx->username_", "ctx->timeout_"], ["ctx->sock_", "ctx->password_", "ctx->timeout_"], ["ctx->sock_", '""', "ctx->timeout_"], ["ctx->sock_", '""', "ctx->timeout_"]]
         if parts != want:
             bad.append("request parts are %s, expected user, password, \"\", \"\" on ctx->sock_" % parts)
-    c.check(not bad, "C20.3", "_whawty_send_request|field-order", line_of("_whawty_send_request"), "user, password, empty service, empty realm — the Go decoder's positions 0..3", "; ".join(bad))
+        if any(e[0] == "_whawty_write_data" for e in sp[0].events):
+            bad.append("_whawty_send_request writes to the socket itself besides sending the four parts: %s" % [e[2] for e in sp[0].events if e[0] == "_whawty_write_data"])
+    c.check(not bad, "C20.3", "_whawty_send_request|field-order", line_of("_whawty_send_request"), "user, password, empty service, empty realm — the Go decoder's positions 0..3", "; ".join(sorted(set(bad))))
     bad = []
-    okp = [p for p in P["_whawty_send_request_part"] if p.ret is not None and norm(p.ret) == "0"]
+    okp = [p for p in P["_whawty_send_request_part"] if p.ret is not None and norm(p.ret) == "0"] if per_part else []
     fields = set()
-    for p in okp:
+    if part_asm:
+        pasm = assembled_paths(okp, "sock", ["part"], ["the part"])
+        for f in open_loops(funcs, "_whawty_send_request_part"):
+            pasm["frame"].append("%s contains a loop whose number of iterations is not decided by constants: the bytes it may store into the buffer are not followed" % f)
+        bad = pasm["frame"] + pasm["written"] + pasm["order"] + ([] if pasm["paths"] else ["no feasible success path"])
+        fields = set(pasm["kinds"]) | ({None} if pasm["width"] or not pasm["kinds"] else set())
+    for p in ([] if part_asm else okp):
         ws = [e for e in p.events if e[0] == "_whawty_write_data"]
         if len(ws) != 2:
             bad.append("%d writes per part" % len(ws))
@@ -1216,7 +2169,13 @@ def run_rules(c, funcs, src_text, thorough):
                 bad.append("%d htons() calls for one length field" % len([e for e in p.events if e[0] == "htons"]))
         if not (a1[0] == "sock" and strip_casts(a1[1]) == "part"):
             bad.append("second write is not exactly the clipped payload: %s" % a1)
-    c.check(not bad and len(okp) >= 1, "C20.3", "_whawty_send_request_part|frame", line_of("_whawty_send_request_part"), "htons(min(strlen(part), 256)) in a 2-byte field, then exactly that many bytes", "; ".join(sorted(set(bad))))
+    if per_part:
+        c.check(not bad and len(okp) >= 1, "C20.3", "_whawty_send_request_part|frame", line_of("_whawty_send_request_part"), "htons(min(strlen(part), 256)) in a 2-byte field, then exactly that many bytes", "; ".join(sorted(set(bad))))
+    else:
+        fb = sorted(set(asm["frame"] + asm["written"]))
+        c.check(not fb and asm["paths"] >= 1, "C20.3", "request-part-encoder|frame", line_of("_whawty_send_request"),
+                "on each of the %d success paths the buffer handed to the single write holds, per part in order, the big-endian 16-bit value min(strlen(field), 256) "
+                "followed by exactly that many bytes of the field, and nothing else is written" % asm["paths"], GO + "; ".join(fb) if fb else "no feasible success path")
     # constants
     m = re.search(r'#define\s+WHAWTY_REQUEST_MAX_PARTLEN\s+(\d+)', src_text)
     cmax = int(m.group(1)) if m else -1
@@ -1228,9 +2187,12 @@ def run_rules(c, funcs, src_text, thorough):
         pass
     c.check(cmax == MAXC and gomax == cmax, "C20.3", "limit|WHAWTY_REQUEST_MAX_PARTLEN==MaxRequestLength==256", "pam/pam_whawty.c",
             "C limit %d equals the Go codec's MaxRequestLength %d" % (cmax, gomax), "C limit %d, Go MaxRequestLength %d, protocol limit 256" % (cmax, gomax))
-    c.check(len(okp) >= 1 and fields and None not in fields, "C20.3", "length-field|16-bit",
-            line_of("_whawty_send_request_part"), "the length field is a 16-bit integer in network byte order (%s)" % ", ".join(sorted(x for x in fields if x)),
-            "the length field written first is not a 16-bit unsigned integer (or an array of two unsigned bytes) sent with its own size")
+    if not per_part:
+        fields = set(asm["kinds"]) | ({None} if asm["width"] or not asm["kinds"] else set())
+    c.check((len(okp) >= 1 or (not per_part and asm["paths"] >= 1)) and fields and None not in fields, "C20.3", "length-field|16-bit",
+            line_of("_whawty_send_request_part" if per_part else "_whawty_send_request"), "the length field is a 16-bit integer in network byte order (%s)" % ", ".join(sorted(x for x in fields if x)),
+            "the length field written first is not a 16-bit unsigned integer (or an array of two unsigned bytes) sent with its own size" if per_part else
+            "a length prefix in the assembled request is not two bytes holding a 16-bit big-endian value: " + "; ".join(sorted(set(asm["width"]))))
 
     # ---- C20.2 buffer discipline
     bad = []
@@ -1264,10 +2226,28 @@ def run_rules(c, funcs, src_text, thorough):
                     bad.append("socket path copy is not snprintf(addr.sun_path, sizeof(addr.sun_path), \"%%s\", …): %s" % a)
     if "snprintf(addr.sun_path" not in src_text:
         bad.append("socket path is not copied with snprintf")
-    banned = sorted(set(re.findall(r'\b(strcpy|strcat|sprintf|vsprintf|gets|memcpy|memmove|strncpy|strncat|alloca)\s*\(', src_text)))
+    banned = sorted(set(re.findall(r'\b(strcpy|strcat|sprintf|vsprintf|gets|strncat|alloca)\s*\(', src_text)))
     if banned:
         bad.append("unbounded or unchecked copy primitives used: " + ", ".join(banned))
-    c.check(not bad, "C20.2", "copies|bounded", line_of("_whawty_open_socket"), "sun_path copy bounded by sizeof; no strcpy/strcat/sprintf/memcpy/gets in the module", "; ".join(bad))
+    # length-taking copies (memcpy, memmove, strncpy, snprintf) are accepted only where the checker itself proves the bound: every call of
+    # one of them in the file must lie on analysed paths and, on each of them, stay inside a local byte array for every string length
+    sites, proven, cbad = copy_sites(funcs), {}, []
+    for fname, ps in P.items():
+        for p in ps:
+            b, ok = store_bounds(p, fname)
+            if b is None:
+                continue
+            cbad += b
+            for st in p.stores:
+                if st["site"] is not None and st["call"].startswith(COPY_CALLS):
+                    proven[st["site"]] = proven.get(st["site"], True) and st["site"] in ok
+    for f, b, i, callee in sorted(sites):
+        if not proven.get((f, b, i), False) and not any(x.startswith(f + ":") or ("`%s(" % callee) in x for x in cbad):
+            cbad.append("%s: the %s() call in it is not on any analysed path: its bound is not established" % (f, callee))
+    bad += sorted(set(cbad))
+    used = sorted({x[3] for x in sites if x[3] != "snprintf"})
+    c.check(not bad, "C20.2", "copies|bounded", line_of("_whawty_open_socket"), "sun_path copy bounded by sizeof; no strcpy/strcat/sprintf/gets in the module" +
+            ("; every %s stays inside its destination buffer for all field lengths (%d call sites)" % ("/".join(used), len([x for x in sites if x[3] != "snprintf"])) if used else "; no memcpy/strncpy"), "; ".join(bad))
     # read()/write() only inside the select loops, with the remaining length
     bad = []
     for fname, prim in (("_whawty_read_data", "read"), ("_whawty_write_data", "write")):
@@ -1339,7 +2319,7 @@ def run_rules(c, funcs, src_text, thorough):
     for f in ("_whawty_send_request", "_whawty_recv_response"):
         for p in P[f]:
             for e in p.events:
-                if e[0] in ("_whawty_send_request_part", "_whawty_read_data") and norm(e[1][-1]) != "ctx->timeout_":
+                if e[0] in ("_whawty_send_request_part", "_whawty_read_data", "_whawty_write_data") and norm(e[1][-1]) != "ctx->timeout_":
                     bad.append("%s passes %s as timeout, not ctx->timeout_" % (f, e[1][-1]))
     # timeout_ writers: ctx_init default and parse_args under t > 0
     inits = re.findall(r'ctx->timeout_\s*=\s*([^;]+);', src_text)
@@ -1416,11 +2396,36 @@ def main():
     prop = sys.argv[1] if len(sys.argv) > 1 else "C20"
     tier = sys.argv[2] if len(sys.argv) > 2 else "quick"
     c = Ctx(prop, tier)
+    if prop == "C13":
+        return main_c13(c, tier)
+    run_all(c, tier)
+    sys.exit(finish(c))
+
+def main_c13(c, tier):
+    """C13.4, the C side of the codec agreement ("the PAM module's encoder produces the same bytes as the Go encoder for the same
+    fields"): the request-shape family C20.3 of this engine, evaluated for wacheck's C13 check. With --obligations the obligations are
+    printed as JSON for wacheck (rules/c05.go: c134) and nothing is written; without, a report like C20's (evidence/C13.4-pam.json)."""
+    run_all(c, tier, floors={"C20.3": 4})
+    keep = []
+    for o in c.obs:
+        if o["rule"].startswith("C20.3") or o["rule"] == "C20.0" or o["key"].startswith("C20.1|_whawty_send_request|assembled"):
+            r = "C13.4" + o["rule"][len("C20.3"):] if o["rule"].startswith("C20.3") else ("C13.4" if o["rule"] == "C20.1" else "C13.4.anchor")
+            o = dict(o, rule=r, key=r + "|pam:" + o["key"].split("|", 1)[1])
+            keep.append(o)
+    if "--obligations" in sys.argv:
+        json.dump({"engine": "pamcheck", "source": SRC, "obligations": keep}, sys.stdout, indent=1)
+        sys.exit(0)
+    c.obs, c.rules, c.prop = keep, {}, "C13.4-pam"
+    for o in keep:
+        c.rules[o["rule"]] = c.rules.get(o["rule"], 0) + 1
+    sys.exit(finish(c))
+
+def run_all(c, tier, floors=None):
     try:
         src_text = open(SRC).read()
     except OSError as e:
         c.undecided("C20.0", "source", "pam/pam_whawty.c", "cannot read the module source: %s" % e)
-        sys.exit(finish(c))
+        return
     flags = ["-I", STUBS, "-std=gnu11"]
     configs = [[]]
     if tier == "thorough":
@@ -1443,7 +2448,7 @@ def main():
             c.undecided("C20.0", "cfg" + "".join(extra), "pam/pam_whawty.c", "UNRESOLVED: clang produced CFGs for only %d functions" % len(funcs))
             continue
         if extra:
-            sub = Ctx(prop, tier)
+            sub = Ctx(c.prop, tier)
             run_rules(sub, funcs, src_text, True)
             for o in sub.obs:
                 if o["status"] != "discharged":
@@ -1452,11 +2457,10 @@ def main():
             c.stats["configs"] = c.stats.get("configs", 1) + 1
         else:
             run_rules(c, funcs, src_text, tier == "thorough")
-    floors = {"C20.1": 6, "C20.2": 3, "C20.3": 4, "C20.4": 3, "C20.5": 3}
+    floors = floors or {"C20.1": 6, "C20.2": 3, "C20.3": 4, "C20.4": 3, "C20.5": 3}
     for r, n in floors.items():
         if c.rules.get(r, 0) < n:
             c.undecided(r + ".floor", "floor>=%d" % n, "-", "VACUOUS: rule %s matched %d instances, confirmed floor is %d" % (r, c.rules.get(r, 0), n))
-    sys.exit(finish(c))
 
 if __name__ == "__main__":
     try:
